@@ -69,6 +69,7 @@ func verifStartCtl() {
 	mux.HandleFunc("/verif/fs/arm", verifFsArm)
 	mux.HandleFunc("/verif/fs/count", verifFsCount)
 	mux.HandleFunc("/verif/fs/armpat", verifFsArmPattern)
+	mux.HandleFunc("/verif/fs/fail", verifFsFail)
 	mux.HandleFunc("/verif/points", verifPoints)
 	go func() { _ = http.Serve(ln, mux) }()
 	if os.Getenv("VERIF_BG_OFF") != "" {
@@ -297,6 +298,12 @@ func verifFsArmPattern(w http.ResponseWriter, r *http.Request) {
 	n, _ := strconv.ParseInt(r.URL.Query().Get("n"), 10, 64)
 	fileops.VerifArmPattern(r.URL.Query().Get("kind"), r.URL.Query().Get("path"), r.URL.Query().Get("not"), n)
 	verifReply(w, map[string]any{"armed_pattern": n, "count": fileops.VerifCount()})
+}
+
+func verifFsFail(w http.ResponseWriter, r *http.Request) {
+	k, _ := strconv.ParseInt(r.URL.Query().Get("k"), 10, 64)
+	fileops.VerifArmFail(k)
+	verifReply(w, map[string]any{"fail_armed": k, "count": fileops.VerifCount()})
 }
 
 func verifFsCount(w http.ResponseWriter, r *http.Request) {
